@@ -1909,7 +1909,11 @@ func (c *compiler) VisitCastExpr(e *ast.CastExpr) ast.VisitResult {
 				break
 			}
 
-			c.latestReturn, c.latestReturnType, c.latestIsTemp = c.castNonAnyToAny(lhs, lhsTyp, isTempLhs, lhsTyp.VTable())
+			lhsVTable := lhsTyp.VTable()
+			if typeDef, isTypeDef := ddptypes.CastTypeDef(e.LhsType); isTypeDef {
+				lhsVTable = c.typeDefVTables[c.mangledNameType(typeDef)]
+			}
+			c.latestReturn, c.latestReturnType, c.latestIsTemp = c.castNonAnyToAny(lhs, lhsTyp, isTempLhs, lhsVTable)
 		default:
 			if lhsTyp == c.ddpany {
 				nonPrimitiveAnyCast()
